@@ -199,7 +199,7 @@ def register(hub, props=("C05", "C06")):
     # ------------------------------------------------------------------ reads
     def o_getitem(hub, call):
         xs = call.pre[0]
-        if not isinstance(xs, Snap) or not xs.ok or not unique_items(xs):
+        if not isinstance(xs, Snap) or not xs.ok or not unique_items(xs) or xs.values.dtype.kind not in "fiub":
             return
         if xs.values.size > MAX_CELLS:
             rec.skip(MR, "array too large")
@@ -246,7 +246,7 @@ def register(hub, props=("C05", "C06")):
     # ------------------------------------------------------------------ writes
     def o_setitem(hub, call):
         xs = call.pre[0]
-        if not isinstance(xs, Snap) or not xs.ok or not unique_items(xs):
+        if not isinstance(xs, Snap) or not xs.ok or not unique_items(xs) or xs.values.dtype.kind not in "fiub":
             return
         if xs.values.size > MAX_CELLS:
             rec.skip(MW, "array too large")
@@ -463,7 +463,7 @@ def register(hub, props=("C05", "C06")):
 
     def o_split(hub, call):
         xs = call.pre[0]
-        if not isinstance(xs, Snap) or not xs.ok or xs.values.size > MAX_CELLS or not unique_items(xs):
+        if not isinstance(xs, Snap) or not xs.ok or xs.values.size > MAX_CELLS or not unique_items(xs) or xs.values.dtype.kind not in "fiub":
             return
         letter = call.arg(1, "dim_letter")
         if not isinstance(letter, str) or not (letter in xs.letters or letter in xs.names):
